@@ -1,6 +1,7 @@
 package proxysim
 
 import (
+	"sort"
 	"bytes"
 	"compress/gzip"
 	"context"
@@ -252,13 +253,50 @@ func (c *C10Case) reference(body []byte, now time.Time) (docs []storedDoc, ok bo
 			return nil, true, true
 		}
 	}
-	docs, ok = c.reference1(body, now)
+	docs, ok, _ = c.reference1(body, now, false)
 	return docs, ok, false
 }
 
-func (c *C10Case) reference1(body []byte, now time.Time) (docs []storedDoc, ok bool) {
+// laxShapes are document lines that are NOT valid JSON but that the decoder of the bulk processor takes
+// (known finding, see known_findings.json): name -> text.
+var laxShapes = map[string]string{
+	"number with two fractions":      `{"k0":"v","n":1.2.3}`,
+	"lone minus sign":                `{"k0":"v","n":-}`,
+	"number with a plus sign":        `{"k0":"v","n":+1}`,
+	"number with a leading zero":     `{"k0":"v","n":01}`,
+	"unknown escape in a string":     `{"k0":"v","s":"\x"}`,
+	"short unicode escape":           `{"k0":"v","s":"\u12"}`,
+	"raw TAB inside a string":        "{\"k0\":\"v\",\"s\":\"a\tb\"}",
+	"text after the closing brace":   `{"k0":"v"} x`,
+}
+
+func laxShapeOf(doc string) string {
+	for name, text := range laxShapes {
+		if doc == text {
+			return name
+		}
+	}
+	return ""
+}
+
+// expectation is the reference outcome for a body. The strict rule rejects a request with a document
+// line that is not valid JSON. Where the only such lines are of the known lax shapes AND the
+// implementation accepted the request, the known finding is named (lax != "") and the rest of the request
+// is judged as if those lines were well-formed object documents, so that everything else stays checked.
+func (c *C10Case) expectation(body []byte, now time.Time, accepted bool) (docs []storedDoc, ok, ambiguous bool, lax string) {
+	docs, ok, ambiguous = c.reference(body, now)
+	if ambiguous || ok || !accepted {
+		return docs, ok, ambiguous, ""
+	}
+	if ld, lok, shape := c.reference1(body, now, true); lok && shape != "" {
+		return ld, true, false, shape
+	}
+	return docs, ok, ambiguous, ""
+}
+
+func (c *C10Case) reference1(body []byte, now time.Time, lenient bool) (docs []storedDoc, ok bool, lax string) {
 	if c.ErrorAt > 0 && c.ErrorAt <= len(body) {
-		return nil, false
+		return nil, false, ""
 	}
 	// split into lines the way a line reader does: '\n' terminates, an optional '\r' before it is dropped
 	var lines []string
@@ -284,14 +322,14 @@ func (c *C10Case) reference1(body []byte, now time.Time) (docs []storedDoc, ok b
 		action := lines[i]
 		i++
 		if len(action) > c.MaxDocSize {
-			return nil, false // action line too long
+			return nil, false, "" // action line too long
 		}
 		if actions < 5 && !strings.Contains(action, `"create"`) && !strings.Contains(action, `"index"`) {
-			return nil, false
+			return nil, false, ""
 		}
 		actions++
 		if i >= len(lines) {
-			return nil, false // action line without document
+			return nil, false, "" // action line without document
 		}
 		doc := lines[i]
 		i++
@@ -299,10 +337,15 @@ func (c *C10Case) reference1(body []byte, now time.Time) (docs []storedDoc, ok b
 			continue // over-size document: skipped together with its action line
 		}
 		if doc == "" {
-			return nil, false
+			return nil, false, ""
 		}
 		if !json.Valid([]byte(doc)) {
-			return nil, false
+			if shape := laxShapeOf(doc); lenient && shape != "" {
+				lax = shape
+				docs = append(docs, storedDoc{body: doc, mid: uint64(now.UnixMilli())})
+				continue
+			}
+			return nil, false, ""
 		}
 		if t := strings.TrimSpace(doc); !strings.HasPrefix(t, "{") {
 			continue // not an object: skipped
@@ -334,7 +377,7 @@ func (c *C10Case) reference1(body []byte, now time.Time) (docs []storedDoc, ok b
 		}
 		docs = append(docs, storedDoc{body: doc, mid: mid})
 	}
-	return docs, true
+	return docs, true, lax
 }
 
 var c10Mapping = seq.Mapping{
@@ -461,9 +504,12 @@ func RunC10(t *testing.T, c *C10Case) *RunResult {
 				return
 			}
 			// reference
-			want, ok, ambiguous := c.reference(body, now)
+			want, ok, ambiguous, lax := c.expectation(body, now, out.status == 200 && !(c.Gzip && c.ErrorAt > 0))
 			if c.Gzip && c.ErrorAt > 0 {
 				ok = false
+			}
+			if lax != "" {
+				violate("accepted_lax_json", "a document line that is not valid JSON (shape: %s) did not reject the request: status %d, stored verbatim next to its neighbours", lax, out.status)
 			}
 			switch {
 			case ambiguous:
@@ -766,6 +812,26 @@ func GenC10(seed uint64, thorough bool, maxDoc int) *C10Case {
 		}
 		c.Lines = append(c.Lines, l)
 	}
+	lax := r.Bool(0.04)
+	if lax {
+		// one document line of a shape that is not valid JSON but that a lenient decoder takes
+		names := make([]string, 0, len(laxShapes))
+		for name := range laxShapes {
+			names = append(names, name)
+		}
+		sort.Strings(names)
+		var docLines []int
+		for i, l := range c.Lines {
+			if l.Kind == "doc" {
+				docLines = append(docLines, i)
+			}
+		}
+		if len(docLines) > 0 {
+			c.Lines[docLines[r.Intn(len(docLines))]] = C10Line{Kind: "laxinvalid", Text: laxShapes[names[r.Intn(len(names))]]}
+		} else {
+			lax = false
+		}
+	}
 	c.NoFinalNL = r.Bool(0.3)
 	if r.Bool(0.12) {
 		c.TruncateAt = r.Range(1, 300)
@@ -785,6 +851,9 @@ func GenC10(seed uint64, thorough bool, maxDoc int) *C10Case {
 	}
 	if r.Bool(0.3) {
 		c.Par = r.Range(2, 4)
+		if lax {
+			c.Par = 0 // (documents of concurrent requests are told apart by a marker only object documents carry)
+		}
 		c.ParFailFirst = r.Bool(0.5)
 		c.PSync = []float64{0.1, 0.3, 0.6}[r.Intn(3)]
 	}
